@@ -326,7 +326,7 @@ static void for_type(report& r)
         for (int mode : modes)
         {
             for (int gk = 0; gk <= 4; ++gk)
-            for (T alpha : {T(0), T(0.5), T(1.5)})
+            for (T alpha : {T(0), T(0.5), T(1.5), T(4) / T(3)})
             {
                 if (mode == 50 && gk != 4) continue;    // a default checkpoint whose dimension is not set yet cannot be written
                 std::string const id = tn + " vegas iters=" + std::to_string(iters) + " mode=" + std::to_string(mode) + " grid=" + std::to_string(gk) + " alpha=" + vf::dec(alpha);
